@@ -79,6 +79,40 @@ def handle : Handler := fun j => do
             | some v => pairToJson (inv.apply p v f)).toArray)]
     pure (Json.mkObj [("dump", dumpTable m.map), ("noReinstall", dumpTable m.noReinstall),
                       ("applied", Json.arr (fwd.map pairToJson).toArray), ("inverse", invJ)])
+  | "mapseq" =>
+    -- a sequence of operations on ONE live Mapping: add / merge (a fresh mapping built from `adds`) / inverse / apply
+    let mut m : Mapping := {}
+    let mut out : Array Json := #[]
+    for o in (← jarr j "ops") do
+      let k ← (← o.getObjVal? "op").getStr?
+      if k == "add" then
+        m := m.add (← jstr o "inP") (← jstr o "inV") (← jstrOpt o "outP") (← jstrOpt o "outV") (← jstr o "flavor")
+          (← jbool o "overwrite")
+        out := out.push Json.null
+      else if k == "merge" then
+        let before := dumpTable m.map
+        m := m.merge (← mappingOf (← jarr o "adds")) (← jbool o "overwrite")
+        out := out.push (Json.mkObj [("before", before), ("after", dumpTable m.map)])
+      else if k == "apply" then
+        match (← jarr o "q") with
+        | [p, v, f] => out := out.push (pairToJson (m.apply (Str.ofString (← p.getStr?)) (Str.ofString (← v.getStr?))
+                                                       (Str.ofString (← f.getStr?))))
+        | _ => throw "apply: q = [product, version, flavor]"
+      else if k == "inverse" then
+        let rows := m.map.flatMap fun (f, byP) => byP.flatMap fun (p, byV) => byV.map fun (v, _) => (f, p, v)
+        let invJ : Json := match m.inverse with
+          | none => Json.str "RuntimeError"
+          | some inv =>
+            Json.mkObj [("dump", dumpTable inv.map),
+              ("checks", Json.arr (rows.map fun (f, p, v) =>
+                let r := m.apply p v f
+                Json.arr #[ofStr f, ofStr p, ofStr v, pairToJson r,
+                           match r.2 with
+                           | none => Json.null
+                           | some w => pairToJson (inv.apply r.1 w f)]).toArray)]
+        out := out.push (Json.mkObj [("dump", dumpTable m.map), ("inverse", invJ)])
+      else throw s!"mapseq: unknown op {k}"
+    pure (Json.mkObj [("out", Json.arr out)])
   | "remap" =>
     let m0 ← mappingOf (← jarr j "adds")
     let files ← (← jarr j "files").mapM fun f => do (← f.getArr?).toList.mapM fun l => do pure (Str.ofString (← l.getStr?))
